@@ -6,6 +6,7 @@ import (
 	"math"
 	"math/big"
 	"sort"
+	"strconv"
 	"sync/atomic"
 
 	"github.com/aclements/go-moremath/mathx"
@@ -166,9 +167,14 @@ func c08BetaClasses(w *mon.W, x, a, b float64) {
 	w.HitIf(a > 250 || b > 250, "beta-large-param")
 	w.HitIf((a < 0.1 && b > 250) || (b < 0.1 && a > 250), "beta-small-and-large-param")
 	w.HitIf(x == 0, "beta-x=0")
+	w.HitIf(x == 0 && math.Signbit(x), "beta-x=-0")
 	w.HitIf(x == 1, "beta-x=1")
 	w.HitIf((x == 0 || x == 1) && a == math.Floor(a) && b == math.Floor(b), "beta-end-point-int-params")
 	w.HitIf((x == 0 || x == 1) && (a == 1 || b == 1), "beta-end-point-param=1")
+	da, db := c08OffSpecial(a), c08OffSpecial(b)
+	w.HitIf(da > 0 || db > 0, "beta-param-near-special")
+	w.HitIf((da > 0 && da <= 1e-7) || (db > 0 && db <= 1e-7), "beta-param-within-1e-7-of-special")
+	w.HitIf((da > 0 && math.Abs(a-1) <= 1e-3) || (db > 0 && math.Abs(b-1) <= 1e-3), "beta-param-near-1")
 	w.HitIf(a == 1 || b == 1, "beta-param=1")
 	w.HitIf(x > 0 && x < 1e-100, "beta-x-tiny")
 	w.HitIf(x < 1 && x > 1-1e-12, "beta-x-near-1")
@@ -192,6 +198,7 @@ func c08JudgeBetaInc(w *mon.W, c c08Case) {
 		w.Hit("closed-form-int-beta")
 	case "big":
 		w.Hit("bigfloat-beta")
+		w.HitIf(c08OffSpecial(a) > 0 || c08OffSpecial(b) > 0, "bigfloat-beta-param-near-special")
 	default:
 		w.Note("mathext-beta")
 	}
@@ -248,7 +255,7 @@ func c08JudgeBetaInc(w *mon.W, c c08Case) {
 
 	// M-law: I_x(a,b) + I_{1-x}(b,a) = 1, on an x for which 1-x is exact
 	xs := x
-	if x < 0.5 {
+	if x < 0.5 && x != 0 { // x = 0 (of either sign) is kept as it is: 1-x = 1 exactly
 		xs = 1 - (1 - x)
 	}
 	g1 := got
@@ -283,6 +290,8 @@ func c08JudgeBetaMono(w *mon.W, c c08Case) {
 	w.HitIf(a < 0.1 || b < 0.1, "beta-small-param")
 	w.HitIf(a > 250 || b > 250, "beta-large-param")
 	w.Hit("beta-monotone-grid")
+	w.HitIf(c.Mode == "hunt", "beta-monotone-hunted-grid")
+	mean := a / (a + b)
 	w.Distinct(mon.NewHasher().S("betainc-mono").F(a).F(b).Fs(xs).Sum())
 	prev, prevX := math.Inf(-1), math.NaN()
 	for _, x := range xs {
@@ -303,8 +312,19 @@ func c08JudgeBetaMono(w *mon.W, c c08Case) {
 			w.Violate("BetaInc-end-point", fmt.Sprintf("BetaInc(%v, %.17g, %.17g) = %.17g, must be %v", x, a, b, got, x), one)
 		}
 		w.HitIf((x == 0 || x == 1) && a == math.Floor(a) && b == math.Floor(b), "beta-end-point-int-params")
+		w.HitIf(x == 0 && math.Signbit(x), "beta-x=-0")
 		if !math.IsNaN(prevX) && x > prevX {
 			w.HitIf(prevX < sw && x >= sw, "beta-monotone-across-switch")
+			// a closely spaced pair away from every point at which this monitor
+			// knows the pristine library to change branch (inputs only)
+			if prevX > 0 && x < 1 && x-prevX <= 1e-9*x && c.Mode != "hunt" {
+				off := true
+				for _, p := range []float64{sw, 1 - sw, mean, 0.5} {
+					off = off && math.Abs(x-p) > 1e-3
+				}
+				w.HitIf(off, "beta-monotone-close-pair-off-switch")
+				w.HitIf(off && x >= 1e-12 && x <= 1e-6, "beta-monotone-close-pair-small-x")
+			}
 			slack := c08Slack(math.Max(c08BetaNoise(prevX, a, b), c08BetaNoise(x, a, b)))
 			if !w.Err("BetaInc-monotone", math.Max(0, prev-got), slack) {
 				w.Violate("BetaInc-monotone", fmt.Sprintf("BetaInc(x,%.17g,%.17g) decreases: x=%.17g -> %.17g, x=%.17g -> %.17g (drop %.3g)", a, b, prevX, prev, x, got, prev-got),
@@ -382,6 +402,10 @@ func c08GammaClasses(w *mon.W, a, x float64) {
 	w.HitIf(math.IsInf(x, 1) && a == math.Floor(a), "gamma-x=+Inf-int-a")
 	w.HitIf(a != 1 && math.Abs(a-1) <= 4*0x1p-52, "gamma-a-ulps-from-1")
 	w.HitIf(a == 1, "gamma-a=1")
+	d := c08OffSpecial(a)
+	w.HitIf(d > 0, "gamma-a-near-special")
+	w.HitIf(d > 0 && d <= 1e-7, "gamma-a-within-1e-7-of-special")
+	w.HitIf(d > 0 && math.Abs(a-1) <= 1e-3, "gamma-a-near-1")
 	w.HitIf(x > 0 && x < 1e-100, "gamma-x-tiny")
 	w.HitIf(x > c08GammaXMax(a), "gamma-x-huge")
 	w.HitIf(math.Abs(x-a) <= math.Sqrt(a), "gamma-x-near-mean")
@@ -412,6 +436,7 @@ func c08JudgeGammaInc(w *mon.W, c c08Case) {
 		w.HitIf(isHalf, "closed-form-half-gamma")
 	case "big":
 		w.Hit("bigfloat-gamma")
+		w.HitIf(c08OffSpecial(a) > 0, "bigfloat-gamma-a-near-special")
 	default:
 		w.Note("mathext-gamma")
 	}
@@ -492,6 +517,7 @@ func c08JudgeGammaMono(w *mon.W, c c08Case) {
 	w.HitIf(a < 0.1, "gamma-small-a")
 	w.HitIf(a > 250, "gamma-large-a")
 	w.Hit("gamma-monotone-grid")
+	w.HitIf(c.Mode == "hunt", "gamma-monotone-hunted-grid")
 	w.Distinct(mon.NewHasher().S("gammainc-mono").F(a).Fs(xs).Sum())
 	prevP, prevQ, prevX := math.Inf(-1), math.Inf(1), math.NaN()
 	for _, x := range xs {
@@ -536,6 +562,11 @@ func c08JudgeGammaMono(w *mon.W, c c08Case) {
 		}
 		if !math.IsNaN(prevX) && x > prevX {
 			w.HitIf(prevX < sw && x >= sw, "gamma-monotone-across-switch")
+			if prevX > 0 && !math.IsInf(x, 1) && x-prevX <= 1e-9*x && c.Mode != "hunt" {
+				off := math.Abs(x-sw) > 1e-3*sw && math.Abs(x-a) > 1e-3*a
+				w.HitIf(off, "gamma-monotone-close-pair-off-switch")
+				w.HitIf(off && x >= 1e-12 && x <= 1e-6, "gamma-monotone-close-pair-small-x")
+			}
 			pair := c08Case{Op: "gammainc-mono", A: c.A, Xs: mon.Fs([]float64{prevX, x})}
 			slack := c08Slack(math.Max(c08GammaNoise(a, prevX), c08GammaNoise(a, x)))
 			if !w.Err("GammaInc-monotone", math.Max(0, prevP-P), slack) {
@@ -698,10 +729,13 @@ func c08JudgeChoose(w *mon.W, n, k int, bin *big.Int) {
 			w.Violate("Choose-value", fmt.Sprintf("Choose(%d,%d) = %.17g, exact %.17g (rel %.3g)", n, k, got, want, (got-want)/want), c)
 		}
 	}
-	// Lchoose = ln Choose: |error| <= 1e-10 follows from 1e-10 relative on
-	// Choose; scaled by max(1,|ln C|) so that a relative-accuracy lgamma
-	// implementation is not flagged.
-	if !w.Err("Lchoose-vs-ln(big.Int)", math.Abs(lgot-lwant), c08TolRel*math.Max(1, lwant)) {
+	// Lchoose = ln Choose: |error| <= 1e-10 absolute is what 1e-10 relative
+	// on Choose means for its logarithm (ln(1 +- 1e-10) = +- 1e-10), plus
+	// 8 ulps of ln C for the rounding of the result and of the reference
+	// (<= 9.1e-13). It was 1e-10*max(1, ln C) before, up to 690 times wider:
+	// a Stirling series truncated at 3.8e-10 passed. The lgamma route of the
+	// pristine library is within 2.4e-12 for every n <= 1000.
+	if !w.Err("Lchoose-vs-ln(big.Int)", math.Abs(lgot-lwant), c08TolRel+8*(math.Nextafter(lwant, math.Inf(1))-lwant)) {
 		w.Violate("Lchoose-value", fmt.Sprintf("Lchoose(%d,%d) = %.17g, ln of exact binomial %.17g (diff %.3g)", n, k, lgot, lwant, lgot-lwant), c)
 	}
 	// symmetry in k and n-k
@@ -779,9 +813,11 @@ func c08Step(x float64, k int) float64 {
 
 func c08GenParam(rng *mon.Rand) float64 {
 	var v float64
-	switch rng.Intn(11) {
+	switch rng.Intn(12) {
 	case 10:
 		v = c08GenSpecial(rng)
+	case 11:
+		v = c08GenNearSpecial(rng)
 	case 5:
 		if rng.Intn(3) == 0 {
 			v = c08Lo
@@ -818,6 +854,62 @@ func c08GenSpecial(rng *mon.Rand) float64 {
 		return 1
 	}
 	return c08SpecialParams[rng.Intn(len(c08SpecialParams))]
+}
+
+// c08OffGraded is a relative offset between 1e-15 and 1e-3, graded so that
+// every decade in between is drawn often.
+func c08OffGraded(rng *mon.Rand) float64 {
+	switch rng.Intn(4) {
+	case 0:
+		return rng.LogUniform(1e-15, 1e-3)
+	case 1:
+		return rng.LogUniform(1e-12, 1e-6)
+	case 2:
+		return rng.LogUniform(1e-10, 1e-7)
+	default:
+		return rng.Float64() * rng.Pick(1e-6, 1e-4)
+	}
+}
+
+// c08NearValue moves v by a graded relative offset of either sign.
+func c08NearValue(rng *mon.Rand, v float64) float64 {
+	return v + rng.Sign()*c08OffGraded(rng)*v
+}
+
+// c08GenNearSpecial: a parameter in a small NEIGHBOURHOOD (1e-15 .. 1e-3
+// relative, either side) of a value at which an implementation may select a
+// closed form: 1, 2, 0.5, integers, half-integers. A shortcut selected by a
+// tolerance comparison instead of equality is wrong there, while at the
+// special value itself and one ulp away from it nothing can be seen.
+func c08GenNearSpecial(rng *mon.Rand) float64 {
+	var c float64
+	switch rng.Intn(8) {
+	case 0, 1, 2:
+		c = 1
+	case 3:
+		c = rng.Pick(2, 0.5)
+	case 4:
+		c = float64(c08GenInt(rng))
+	case 5:
+		c = float64(c08GenInt(rng)) - 0.5
+	default:
+		c = rng.Pick(1.5, 2, 2.5, 3, 4, 5, 10, 20, 21, 100, 170, 171, 0.5, 0.25, 0.75)
+	}
+	return c08Clamp(c08NearValue(rng, c), c08Lo, c08Hi)
+}
+
+// c08OffSpecial: the relative distance of v to the nearest multiple of 1/2
+// if that lies in (4 ulps, 1e-3], else 0 (a property of the input only).
+func c08OffSpecial(v float64) float64 {
+	r := math.Round(2*v) / 2
+	if !(r >= 0.5) {
+		return 0
+	}
+	d := math.Abs(v-r) / r
+	if d <= 4*0x1p-52 || d > 1e-3 {
+		return 0
+	}
+	return d
 }
 
 // c08IsSpecialParam: integer, half-integer, an end of the range or within
@@ -901,7 +993,7 @@ func c08GenBetaX(rng *mon.Rand, a, b float64) float64 {
 	case 6, 7, 8:
 		x = c08Near(rng, sw, 1)
 	case 9:
-		x = rng.Pick(0, 1, 0.5, 5e-324, math.Nextafter(1, 0), 1.0/3, 0.25, 0.75)
+		x = rng.Pick(0, math.Copysign(0, -1), 1, 0.5, 5e-324, math.Nextafter(1, 0), 1.0/3, 0.25, 0.75)
 	case 10:
 		x = mean + rng.Sign()*sd*rng.Uniform(5, 8)
 	case 11:
@@ -946,21 +1038,100 @@ func c08GenGammaX(rng *mon.Rand, a float64) float64 {
 	return x
 }
 
+// c08UniqSorted sorts and removes duplicates; -0 and +0 are different points
+// (-0 first).
 func c08UniqSorted(xs []float64) []float64 {
-	sort.Float64s(xs)
+	sort.Slice(xs, func(i, j int) bool {
+		if xs[i] == xs[j] {
+			return math.Signbit(xs[i]) && !math.Signbit(xs[j])
+		}
+		return xs[i] < xs[j]
+	})
 	out := xs[:0]
 	for i, x := range xs {
-		if i == 0 || x != xs[i-1] {
+		if i == 0 || math.Float64bits(x) != math.Float64bits(xs[i-1]) {
 			out = append(out, x)
 		}
 	}
 	return out
 }
 
+// c08Cutoffs: values at which implementations like to place a cut-off
+// between two evaluation methods, besides powers of two and of ten: roots of
+// the machine epsilon (2^-52 and 2^-53).
+var c08Cutoffs = []float64{0x1p-52, 0x1p-53, 0x1p-26, 1.0536712127723509e-08 /* sqrt(2^-53) */, math.Cbrt(0x1p-52), math.Cbrt(0x1p-53),
+	0x1p-13, math.Sqrt(1.0536712127723509e-08), 1e-7, 1e-8, 1e-9, 1e-10, 1e-5, 1e-4, 1e-3, 0.01, 0.1}
+
+// c08Centre draws the centre of a cluster of closely spaced points of a
+// monotone grid on (0, hi): anywhere in the range - uniform, log-uniform over
+// 1e-12..1e-6, over 1e-6..hi and over the whole range of float64 - and at
+// round numbers (powers of two, powers of ten, roots of the machine
+// epsilon), where a cut-off between two evaluation methods is most likely to
+// sit. Nothing here depends on where the pristine library changes branch.
+func c08Centre(rng *mon.Rand, hi float64, unit bool) float64 {
+	var c float64
+	switch rng.Intn(10) {
+	case 0, 1:
+		c = rng.Uniform(0, hi)
+	case 2, 3:
+		c = rng.LogUniform(1e-12, 1e-6)
+	case 4:
+		c = rng.LogUniform(1e-6, hi)
+	case 5:
+		c = math.Pow(10, -rng.Uniform(0, 307))
+	case 6:
+		c = math.Ldexp(1, -rng.Range(0, 60))
+		if rng.Intn(4) == 0 {
+			c = math.Ldexp(1, -rng.Range(0, 1074))
+		}
+	case 7:
+		c, _ = strconv.ParseFloat("1e-"+strconv.Itoa(rng.Range(0, 20)), 64)
+	case 8:
+		c = c08Cutoffs[rng.Intn(len(c08Cutoffs))]
+	default:
+		if unit {
+			// the mirror images: 1 - 2^-k, 1 - 10^-k
+			c = 1 - math.Ldexp(1, -rng.Range(1, 53))
+			if rng.Bool() {
+				c = 1 - math.Pow(10, -float64(rng.Range(1, 15)))
+			}
+		} else {
+			// small integers and powers of two above 1
+			c = float64(rng.Range(1, 40))
+			if rng.Bool() {
+				c = math.Ldexp(1, rng.Range(0, 10))
+			}
+		}
+	}
+	if !(c <= hi) {
+		c = hi * rng.Float64()
+	}
+	return c
+}
+
+// c08Cluster appends closely spaced points around c: c itself, its
+// neighbours in float64, and points at a relative distance of 1e-16..1e-9
+// either side; around a c below 1e-290 also at absolute distances of a few
+// denormal steps (a relative distance means nothing there).
+func c08Cluster(rng *mon.Rand, xs []float64, c float64) []float64 {
+	xs = append(xs, c, c08Step(c, rng.Range(1, 3)), c08Step(c, -rng.Range(1, 3)))
+	xs = append(xs, c*(1+rng.LogUniform(1e-16, 1e-9)), c*(1-rng.LogUniform(1e-16, 1e-9)))
+	if rng.Intn(3) == 0 {
+		xs = append(xs, c*(1+rng.LogUniform(1e-12, 1e-9)), c*(1-rng.LogUniform(1e-12, 1e-9)))
+	}
+	if c < 1e-290 {
+		xs = append(xs, c+5e-324*float64(rng.Range(1, 1000)), c+math.Ldexp(1, -1074+rng.Range(0, 60)))
+	}
+	return xs
+}
+
 func c08BetaGrid(rng *mon.Rand, a, b float64) []float64 {
 	sw := (a + 1) / (a + b + 2)
 	mean := a / (a + b)
-	xs := []float64{0, 5e-324, 1e-300, 1e-100, 1e-17, 0.5, math.Nextafter(1, 0), 1 - 1e-10, 1}
+	xs := []float64{0, math.Copysign(0, -1), 5e-324, 1e-300, 1e-100, 1e-17, 0.5, math.Nextafter(1, 0), 1 - 1e-10, 1}
+	for k := 0; k < 3; k++ {
+		xs = c08Cluster(rng, xs, c08Centre(rng, 1, true))
+	}
 	for k := -4; k <= 4; k++ {
 		xs = append(xs, c08Step(sw, k))
 	}
@@ -988,7 +1159,10 @@ func c08BetaGrid(rng *mon.Rand, a, b float64) []float64 {
 func c08GammaGrid(rng *mon.Rand, a float64) []float64 {
 	sw := a + 1
 	xmax := c08GammaXMax(a)
-	xs := []float64{0, 5e-324, 1e-300, 1e-100, 1e-10, xmax, 1e5, 1e308, math.MaxFloat64, math.Inf(1)}
+	xs := []float64{0, math.Copysign(0, -1), 5e-324, 1e-300, 1e-100, 1e-10, xmax, 1e5, 1e308, math.MaxFloat64, math.Inf(1)}
+	for k := 0; k < 3; k++ {
+		xs = c08Cluster(rng, xs, c08Centre(rng, xmax, false))
+	}
 	for k := -4; k <= 4; k++ {
 		xs = append(xs, c08Step(sw, k))
 	}
@@ -1011,6 +1185,85 @@ func c08GammaGrid(rng *mon.Rand, a float64) []float64 {
 		}
 	}
 	return c08UniqSorted(out)
+}
+
+// c08Hunt searches for a place where the library steps against a smooth
+// reference, without any assumption on where that might be. e(x) is the
+// difference between the library and the cheap second opinion (mathext) at x
+// (NaN: not usable there; bad: the library panicked or returned NaN, which
+// the judge will report when it evaluates the point itself). Starting from
+// the pair of neighbouring points of pts between which e changes most, the
+// interval is halved (in the ordering of the float64 bit patterns) towards
+// the half in which e changes most, down to two adjacent floats. The end
+// points of the last intervals are returned, to be judged by the ordinary
+// monotonicity law with its ordinary slack: the search only chooses where to
+// look, and a misleading reference costs power, never soundness.
+func c08Hunt(rng *mon.Rand, pts []float64, e func(x float64) (d float64, bad bool)) []float64 {
+	type pe struct{ x, e float64 }
+	var v []pe
+	for _, x := range c08UniqSorted(pts) {
+		if !(x >= 0) || math.IsInf(x, 1) || math.Signbit(x) {
+			continue
+		}
+		d, bad := e(x)
+		if bad {
+			return []float64{0, x}
+		}
+		if !math.IsNaN(d) {
+			v = append(v, pe{x, d})
+		}
+	}
+	if len(v) < 2 {
+		return nil
+	}
+	best, bestD := 0, -1.0
+	for i := 0; i+1 < len(v); i++ {
+		if d := math.Abs(v[i+1].e - v[i].e); d > bestD || (d == bestD && rng.Intn(3) == 0) {
+			best, bestD = i, d
+		}
+	}
+	lo, hi := v[best], v[best+1]
+	out := []float64{lo.x, hi.x}
+	for it := 0; it < 70; it++ {
+		bl, bh := math.Float64bits(lo.x), math.Float64bits(hi.x)
+		if bh-bl <= 1 {
+			break
+		}
+		m := math.Float64frombits(bl + (bh-bl)/2)
+		d, bad := e(m)
+		out = append(out, m)
+		if bad || math.IsNaN(d) {
+			break
+		}
+		dl, dh := math.Abs(d-lo.e), math.Abs(hi.e-d)
+		if dl > dh || (dl == dh && rng.Bool()) {
+			hi = pe{m, d}
+		} else {
+			lo = pe{m, d}
+		}
+	}
+	if len(out) > 14 {
+		out = out[len(out)-14:]
+	}
+	return c08UniqSorted(out)
+}
+
+// c08HuntLadder: starting points of a hunt on (0, hi): a jittered ladder of
+// powers of ten from 1e-300 up (coarse below 1e-20, 0.75 decades above),
+// uniform points, and extra points.
+func c08HuntLadder(rng *mon.Rand, hi float64, extra ...float64) []float64 {
+	xs := append([]float64{0, hi}, extra...)
+	top := math.Log10(hi)
+	for u := -300.0; u < -20; u += 20 {
+		xs = append(xs, math.Pow(10, u+rng.Uniform(0, 20)))
+	}
+	for u := -20.0; u < top; u += 0.75 {
+		xs = append(xs, math.Pow(10, math.Min(top, u+rng.Uniform(0, 0.75))))
+	}
+	for k := 0; k < 8; k++ {
+		xs = append(xs, rng.Uniform(0, hi))
+	}
+	return xs
 }
 
 // mathext start-up cross-check against the big.Float references on benign points.
@@ -1040,13 +1293,13 @@ func c08MathextSelfTest() error {
 // run --------------------------------------------------------------------------------
 
 func c08Run(r *mon.Run) {
-	r.Rule("BetaInc on (x,a,b) and GammaInc/GammaIncComp on (a,x) with a,b in [0.05,300] log-uniform plus edges (0.05, <0.1, >250, 300), integers, half-integers; x uniform and concentrated at 0, 1, the mean, the branch switch (a+1)/(a+b+2) resp. a+1 (0, a few ulps, 1e-15..1e-3 either side), tails, tiny/subnormal, for gamma up to a+40*sqrt(a)+40 and out to MaxFloat64. Bulk points judged against mathext with a 384-bit series adjudicator; separate classes judged directly against closed forms (integer a,b; integer and half-integer a) and against the 384-bit series. Laws: range, end points, I_x(a,b)+I_{1-x}(b,a)=1 (x snapped so that 1-x is exact), P+Q=1, monotone on sorted grids including ulp-chains across the switch, NaN rules. Choose/Lchoose: every 0<=k<=n<=1000 plus out-of-range k against big.Int; negative n (every k out of range: 0 / NaN, no panic; k=0 and k=n not judged on value). Parameters also drawn from a list of special values (1, 2, 3, 0.5, 1.5, small integers and half-integers, 0.05, 300, 1 and 2 and 0.5 +- an ulp), in particular for the argument that stays legal in the NaN / outside-domain workloads; x = 0 and x = +Inf (gamma), x = 0 and x = 1 (beta) are end points of every class and grid. Beta against a 384-bit Gamma ratio. Sign on specials and random bit patterns. Non-trivial = hits a class; distinct by hash of (op, arguments).")
+	r.Rule("BetaInc on (x,a,b) and GammaInc/GammaIncComp on (a,x) with a,b in [0.05,300] log-uniform plus edges (0.05, <0.1, >250, 300), integers, half-integers; x uniform and concentrated at 0, 1, the mean, the branch switch (a+1)/(a+b+2) resp. a+1 (0, a few ulps, 1e-15..1e-3 either side), tails, tiny/subnormal, for gamma up to a+40*sqrt(a)+40 and out to MaxFloat64. Bulk points judged against mathext with a 384-bit series adjudicator; separate classes judged directly against closed forms (integer a,b; integer and half-integer a) and against the 384-bit series. Laws: range, end points, I_x(a,b)+I_{1-x}(b,a)=1 (x snapped so that 1-x is exact), P+Q=1, monotone on sorted grids including ulp-chains across the switch, NaN rules. Choose/Lchoose: every 0<=k<=n<=1000 plus out-of-range k against big.Int; negative n (every k out of range: 0 / NaN, no panic; k=0 and k=n not judged on value). Parameters also drawn from a list of special values (1, 2, 3, 0.5, 1.5, small integers and half-integers, 0.05, 300, 1 and 2 and 0.5 +- an ulp), in particular for the argument that stays legal in the NaN / outside-domain workloads; x = 0 and x = +Inf (gamma), x = 0 and x = 1 (beta) are end points of every class and grid. Round 2: every monotone grid also carries clusters of closely spaced points (float64 neighbours, 1e-16..1e-9 relative, denormal steps near 0) around centres drawn over the whole x range (uniform, log-uniform 1e-12..1e-6, 1e-6..max, 1e-307..1) and at round numbers (powers of two and ten, roots of the machine epsilon, 1-2^-k), independent of where the pristine library changes branch; hunted grids: from a ladder of points the interval over which (library - mathext) changes most is bisected down to adjacent floats and the last brackets are judged by the same monotonicity law (the search only chooses where to look); a and b (beta) and a (gamma) are drawn in a graded neighbourhood (1e-15..1e-3 relative, either side) of 1, 2, 0.5, integers and half-integers in every accuracy class; x = -0 is a point of BetaInc (value 0, symmetry with x = 1). Beta against a 384-bit Gamma ratio. Sign on specials and random bit patterns. Non-trivial = hits a class; distinct by hash of (op, arguments).")
 	r.Assume("x = NaN is not counted as 'x outside [0,1]' for BetaInc (the statement lists NaN arguments only for the gamma functions)",
 		"x = +Inf is the end point of x >= 0 for GammaInc/GammaIncComp: P = 1, Q = 0 (to 1e-9 in the accuracy and monotone classes, exactly in special-x, as since the D20 repair)",
 		"for n < 0 every k is 'k<0 or k>n': Choose must be 0 and Lchoose NaN, except k == 0 and k == n, where the library documents 1 / 0 and the value is not judged",
 		"the symmetry law is checked on x for which 1-x is exactly representable; elsewhere fl(1-x) is a different argument",
 		"monotonicity is checked with a slack for rounding noise of min(1.2e-13 + 16*2^-52*M, 1e-10), M = sum of magnitudes of the log-space terms of the prefactor (<= 2.1e-11 at a=b=300); 1.2e-13 = 4 x the 3e-14 stop criterion of the series / continued fractions",
-		"Lchoose tolerance 1e-10*max(1,|ln C|)")
+		"Lchoose tolerance 1e-10 + 8 ulp(ln C) absolute (1e-10 relative on Choose is 1e-10 absolute on its logarithm)")
 	r.Gate("beta-near-gamma-overflow", "beta-switch-below", "beta-switch-above", "beta-small-param", "beta-large-param",
 		"beta-x=0", "beta-x=1", "beta-x-outside", "beta-x-just-outside", "beta-monotone-across-switch",
 		"gamma-switch-below", "gamma-switch-above", "gamma-small-a", "gamma-large-a", "gamma-cf-large-a", "gamma-series-large-a",
@@ -1059,7 +1312,14 @@ func c08Run(r *mon.Run) {
 		"beta-x-outside-special-params", "beta-x-outside-param=1", "beta-x-outside-a=b=1",
 		"gamma-x=0", "gamma-x=0-int-a", "gamma-x=+Inf", "gamma-x=+Inf-int-a", "gamma-a=1", "gamma-a-ulps-from-1",
 		"beta-end-point-int-params", "beta-end-point-param=1", "beta-param=1",
-		"choose-negative-n", "choose-negative-n-k>n", "choose-negative-n-k<n")
+		"choose-negative-n", "choose-negative-n-k>n", "choose-negative-n-k<n",
+		// red-team round 2: close pairs anywhere on the monotone grids, hunted grids, parameters in a graded
+		// neighbourhood of the special values, x = -0 for BetaInc
+		"beta-monotone-close-pair-off-switch", "beta-monotone-close-pair-small-x", "beta-monotone-hunted-grid",
+		"gamma-monotone-close-pair-off-switch", "gamma-monotone-close-pair-small-x", "gamma-monotone-hunted-grid",
+		"beta-param-near-special", "beta-param-within-1e-7-of-special", "beta-param-near-1", "bigfloat-beta-param-near-special",
+		"gamma-a-near-special", "gamma-a-within-1e-7-of-special", "gamma-a-near-1", "bigfloat-gamma-a-near-special",
+		"beta-x=-0")
 	if err := ref.C08SelfTest(); err != nil {
 		r.Inconclusive("reference self-test failed: " + err.Error())
 		return
@@ -1084,6 +1344,15 @@ func c08Run(r *mon.Run) {
 	})
 	r.Parallel("betainc-integer", r.Pick(6_000, 60_000), func(w *mon.W, i int) {
 		a, b := float64(c08GenInt(w.Rng)), float64(c08GenInt(w.Rng))
+		if i%6 == 5 {
+			// a neighbour of the integer point instead (judged against the
+			// 384-bit series: the closed form does not apply)
+			if w.Rng.Bool() {
+				a = c08Clamp(c08NearValue(w.Rng, a), c08Lo, c08Hi)
+			} else {
+				b = c08Clamp(c08NearValue(w.Rng, b), c08Lo, c08Hi)
+			}
+		}
 		x := c08GenBetaX(w.Rng, a, b)
 		c08JudgeBetaInc(w, c08Case{Op: "betainc", Mode: "closed", X: mon.F(x), A: mon.F(a), B: mon.F(b)})
 	})
@@ -1091,6 +1360,35 @@ func c08Run(r *mon.Run) {
 		a, b := c08GenAB(w.Rng)
 		xs := c08BetaGrid(w.Rng, a, b)
 		c08JudgeBetaMono(w, c08Case{Op: "betainc-mono", A: mon.F(a), B: mon.F(b), Xs: mon.Fs(xs)})
+	})
+	r.Parallel("betainc-monotone-hunt", r.Pick(4_000, 40_000), func(w *mon.W, i int) {
+		a, b := c08GenAB(w.Rng)
+		mean := a / (a + b)
+		sd := math.Sqrt(a * b / ((a + b) * (a + b) * (a + b + 1)))
+		pts := c08HuntLadder(w.Rng, 1, 0.5, mean)
+		for k := 0; k < 12; k++ {
+			pts = append(pts, mean+sd*w.Rng.Uniform(-8, 8))
+			if k < 8 {
+				pts = append(pts, 1-math.Pow(10, -w.Rng.Uniform(0, 16)))
+			}
+		}
+		in := pts[:0]
+		for _, x := range pts {
+			if x >= 0 && x <= 1 {
+				in = append(in, x)
+			}
+		}
+		xs := c08Hunt(w.Rng, in, func(x float64) (float64, bool) {
+			var v, m float64
+			if p, _ := mon.Call(func() { v = mathx.BetaInc(x, a, b) }); p || math.IsNaN(v) {
+				return 0, true
+			}
+			if p, _ := mon.Call(func() { m = mathext.RegIncBeta(a, b, x) }); p {
+				return math.NaN(), false
+			}
+			return v - m, false
+		})
+		c08JudgeBetaMono(w, c08Case{Op: "betainc-mono", Mode: "hunt", A: mon.F(a), B: mon.F(b), Xs: mon.Fs(xs)})
 	})
 	outside := []float64{-5e-324, -1e-300, -1e-17, -0.5, -1, -2, -1e300, math.Inf(-1),
 		math.Nextafter(1, 2), 1 + 1e-15, 1.5, 2, 1e300, math.Inf(1)}
@@ -1127,6 +1425,10 @@ func c08Run(r *mon.Run) {
 		if i%2 == 1 {
 			a -= 0.5
 		}
+		if i%6 >= 4 {
+			// a neighbour of the integer / half-integer (384-bit series)
+			a = c08Clamp(c08NearValue(w.Rng, a), c08Lo, c08Hi)
+		}
 		x := c08GenGammaX(w.Rng, a)
 		c08JudgeGammaInc(w, c08Case{Op: "gammainc", Mode: "closed", A: mon.F(a), X: mon.F(x)})
 	})
@@ -1134,6 +1436,37 @@ func c08Run(r *mon.Run) {
 		a := c08GenParam(w.Rng)
 		xs := c08GammaGrid(w.Rng, a)
 		c08JudgeGammaMono(w, c08Case{Op: "gammainc-mono", A: mon.F(a), Xs: mon.Fs(xs)})
+	})
+	r.Parallel("gammainc-monotone-hunt", r.Pick(4_000, 40_000), func(w *mon.W, i int) {
+		a := c08GenParam(w.Rng)
+		pts := c08HuntLadder(w.Rng, c08GammaXMax(a), a, a+1)
+		for k := 0; k < 12; k++ {
+			pts = append(pts, a+math.Sqrt(a)*w.Rng.Uniform(-6, 12))
+		}
+		upper := i%2 == 1 // follow the error of GammaIncComp instead of GammaInc
+		xs := c08Hunt(w.Rng, pts, func(x float64) (float64, bool) {
+			var v, m float64
+			if p, _ := mon.Call(func() {
+				if upper {
+					v = mathx.GammaIncComp(a, x)
+				} else {
+					v = mathx.GammaInc(a, x)
+				}
+			}); p || math.IsNaN(v) {
+				return 0, true
+			}
+			if p, _ := mon.Call(func() {
+				if upper {
+					m = mathext.GammaIncRegComp(a, x)
+				} else {
+					m = mathext.GammaIncReg(a, x)
+				}
+			}); p {
+				return math.NaN(), false
+			}
+			return v - m, false
+		})
+		c08JudgeGammaMono(w, c08Case{Op: "gammainc-mono", Mode: "hunt", A: mon.F(a), Xs: mon.Fs(xs)})
 	})
 	nan := math.NaN()
 	badA := []float64{0, math.Copysign(0, -1), -5e-324, -1e-300, -0.05, -0.5, -1, -2, -300, -1e300, math.Inf(-1)}
